@@ -89,6 +89,22 @@ def registrations(res, wd, delays, m):
             c = lines.count(f"{r}\t{w}\t/一般名詞/")
             if c != 1:
                 res.violation(f"the acknowledged registration {w}/{r} was applied {c} times", {"kind": "registration_once", "delays": delays})
+        # ... and in the LIVE dictionary: every registered word once under its reading - also a word the dictionary already holds,
+        # registered again under the other kind of noun
+        c2 = Server_client(s)
+        st0, before = c2.call("Verif.Words", {"readings": ["くるま"]})
+        c2.call("RegisterWord", {"kind": "ProperNoun", "reading": "くるま", "word": "車"}, timeout=10)
+        s.quiesce(10.0)
+        stw, live = c2.call("Verif.Words", {"readings": sorted({r for r, _ in words}) + ["くるま"]}, timeout=20)
+        if stw == "ok":
+            by = {it["reading"]: it["words"] for it in live}
+            for r, w in words:
+                k = sum(1 for x in by.get(r, []) if x[0] == w)
+                if k != 1:
+                    res.violation(f"the acknowledged registration {w}/{r} is {k} times in the live dictionary", {"kind": "registration_live", "delays": delays})
+            if st0 == "ok" and len(by.get("くるま", [])) != len(before[0]["words"]) + 1:
+                res.violation(f"registering 車/くるま as a proper noun next to the common noun the dictionary holds is acknowledged but never applied to the live dictionary: {by.get('くるま')}",
+                              {"kind": "registration_live_other_kind", "delays": delays})
         return m
     finally:
         s.stop()
